@@ -25,6 +25,10 @@ type Ghost struct {
 	seq int64
 	by  string
 	how string
+	// cterm: an upper bound of the term in which the entry was committed (the reporter's current
+	// term when it reported it; a server learns of a commit only from a leader whose term it has
+	// adopted). Leader completeness binds the leaders of later terms only.
+	cterm uint64
 }
 
 type leaderRec struct {
@@ -42,8 +46,17 @@ type cfgRec struct {
 
 type epochRec struct {
 	base  uint64 // snapshot index of the user restore
+	term  uint64 // term of that snapshot = the restoring leader's term
 	state FSMState
 	seq   int64
+}
+
+// restoreOK: a user Restore that returned nil (C20).
+type restoreOK struct {
+	call  *Call
+	base  uint64
+	term  uint64
+	epoch uint64
 }
 
 type bootImage struct {
@@ -79,6 +92,7 @@ type Oracle struct {
 	maxTermSeen []uint64 // per node: highest term ever reported by any incarnation
 	leaderObs   []leaderObsRec
 	snapSends   map[string]*snapSendRec
+	restoresOK  []restoreOK
 	installing  []int // per node: InstallSnapshot RPCs being handled
 	userRestoring []int
 	isolatedSince []int64
@@ -156,8 +170,11 @@ func (o *Oracle) beforeStoreLogs(inc *Inc, ents []Ent) {
 		k := idxTerm{e.Index, e.Term}
 		if rec, ok := o.entries[k]; ok {
 			if !rec.ent.same(e) {
-				w.violate("C04", "C04/same-index-term-different-content",
+				v := w.violate("C04", "C04/same-index-term-different-content",
 					"%s stores (%d,%d) type=%v data=%q but s%d first stored type=%v data=%q", inc.tag, e.Index, e.Term, e.Type, short(e.Data), rec.node, rec.ent.Type, short(rec.ent.Data))
+				// the first server to store a second version of (index, term) is the one that created it
+				// (a leader stores before it sends): did it ever win that term?
+				v.Facts["creator_of_second_version_won_the_term"] = fmt.Sprint(o.wonElection(inc.node.idx, e.Term))
 			}
 		} else {
 			o.entries[k] = &EntryRec{ent: e, seq: w.sim.Seq(), node: inc.node.idx}
@@ -410,7 +427,7 @@ func (o *Oracle) onSnapDurable(inc *Inc, rec *SnapRec) {
 			}
 		}
 		if !found {
-			o.epochs = append(o.epochs, epochRec{base: rec.Meta.Index, state: st, seq: w.sim.Seq()})
+			o.epochs = append(o.epochs, epochRec{base: rec.Meta.Index, term: rec.Meta.Term, state: st, seq: w.sim.Seq()})
 			sort.Slice(o.epochs, func(i, j int) bool { return o.epochs[i].base < o.epochs[j].base })
 			o.canon = map[uint64]FSMState{}
 		}
@@ -560,7 +577,13 @@ func (o *Oracle) report(e Ent, by *Inc, how string) {
 		}
 		return
 	}
-	o.ghost[e.Index] = &Ghost{ent: e, seq: w.sim.Seq(), by: by.tag, how: how}
+	ct := e.Term
+	if by.r != nil {
+		if t := by.r.CurrentTerm(); t > ct {
+			ct = t
+		}
+	}
+	o.ghost[e.Index] = &Ghost{ent: e, seq: w.sim.Seq(), by: by.tag, how: how, cterm: ct}
 	if e.Index > o.maxGhost {
 		o.maxGhost = e.Index
 	}
@@ -828,6 +851,11 @@ type delivFacts struct {
 }
 
 func (o *Oracle) onDeliver(inc *Inc, m *Msg) {
+	if m.Kind == "TN" {
+		o.iso.tn[inc.node.idx] = true
+		o.w.stats.probe("timeout_now_delivered")
+		o.w.flt.onEvent("timeoutnow", inc.node.idx)
+	}
 	if m.Kind == "IS" {
 		o.installing[inc.node.idx]++
 	}
@@ -1106,7 +1134,17 @@ func (o *Oracle) onNewLeader(inc *Inc, term uint64) {
 	}
 	// leader completeness: the new leader durably holds every entry known committed (C03)
 	d := inc.node.disk
-	for i, g := range o.ghost {
+	for i := uint64(0); i <= o.maxGhost; i++ {
+		g := o.ghost[i]
+		if g == nil {
+			continue
+		}
+		if g.cterm >= term {
+			// committed in this or a later term: a server that wins an old term late (its vote
+			// responses were delayed) owes nothing to what later leaders committed meanwhile
+			w.stats.probe("stale_term_leader_elected_after_later_commit")
+			continue
+		}
 		if !d.holds(g.ent) {
 			w.violate("C03", "C03/leader-missing-committed-entry", "%s became leader of term %d without committed entry (%d, term %d) reported by %s via %s",
 				inc.tag, term, i, g.ent.Term, g.by, g.how)
